@@ -270,6 +270,35 @@ def run_case(case, calls=1):
         if bad:
             break
     return bad
+
+
+def run_reassign(case):
+    """one router OBJECT used on a sequence of connectivity graphs: constructed with the
+    first graph (or with None), then `router.connectivity = G` before every later call (what
+    Passes.__call__ does on every call, what sharing one router between two pipelines does).
+    Every call is checked against the graph that is CURRENT at that call."""
+    graphs = [build_graph(e, case["nodes"]) for e in case["graphs"]]
+    first = None if case.get("none_first") else graphs[0].copy()
+    router = make_router(case["router"], first, case.get("opts", {}))
+    bad = []
+    for k, G in enumerate(graphs):
+        if k > 0 or first is None:
+            router.connectivity = G.copy()
+        gl = case["gates"][k]
+        c = build_circuit(case["n"], case["wire_names"], gl)
+        before = snapshot(c)
+        try:
+            with time_limit(20):
+                routed, layout = router(c)
+        except Exception as e:
+            bad.append(("reassigned-connectivity", f"call {k+1} on graph {case['graphs'][k]}: {type(e).__name__}: {e}"))
+            break
+        r = check_routing(c, G, routed, layout, case.get("exact", True), before)
+        if r:
+            bad += [("reassigned-connectivity", f"call {k+1} on graph {case['graphs'][k]} (router object first used on "
+                     f"{case['graphs'][0] if first is not None else None}): {kind}: {d}") for kind, d in r]
+            break
+    return bad
 '''
 
 SPEC = {}
@@ -591,7 +620,9 @@ class Suite:
         self.ctx = ctx
         self.lines = []  # driver lines
         self.expect = []  # (kind, expected string / callback data, case)
-        self.bad = {"replay": 0, "star": 0, "dag": 0, "pick": 0, "guard": 0, "blocks": 0}
+        self.bad = {"replay": 0, "star": 0, "dag": 0, "pick": 0, "guard": 0, "blocks": 0,
+                    "blocksmodel": 0, "blockshelper": 0, "blocksprop": 0, "blockspick": 0}
+        self.reported = set()
         self.detail = {}
 
     def note(self, suite, msg):
@@ -750,6 +781,31 @@ def process_driver(ctx, st):
             want, what = exp
             if line.strip() != want:
                 st.note("blocks", f"pickCheck={line.strip()} expected {want}: {what}")
+        elif kind == "blocks_model":
+            real, with_ids, n, fuse, codes = exp
+            body, _, pick = line.partition(" # ")
+            if body.strip() == "ERR" or real == "ERR":
+                if not (body.strip() == "ERR" and real == "ERR"):
+                    st.note("blocksmodel", f"block_decomposition(fuse={fuse}) of {codes} on {n} qubits: model `{body.strip()[:200]}` real `{str(real)[:200]}`")
+                continue
+            model = []
+            for blk in (body.split(" ; ") if body.strip() else []):
+                qs, _, gl = blk.partition(" | ")
+                gs = []
+                for gtxt in (gl.split(" , ") if gl.strip() else []):
+                    t = [int(x) for x in gtxt.split()]
+                    gs.append((t[0] if with_ids else None, t[1], t[2], tuple(t[4:4 + t[3]])))
+                model.append((tuple(int(x) for x in qs.split()), gs))
+            if model != real:
+                k = next((i for i, (x, y) in enumerate(zip(model, real)) if x != y), min(len(model), len(real)))
+                st.note("blocksmodel", f"block_decomposition(fuse={fuse}) of {codes} on {n} qubits: block {k} differs: model "
+                                       f"{model[k] if k < len(model) else None} real {real[k] if k < len(real) else None}")
+            if pick.strip() != "1":
+                st.note("blockspick", f"pickCheck rejects the model's blocks of {codes} (fuse={fuse})")
+        elif kind == "blocks_helper":
+            cmd, want, src = exp
+            if line.strip() != want.strip():
+                st.note("blockshelper", f"{cmd}: model `{line.strip()}` real `{want}` on `{src[:300]}`")
         elif kind == "dag":
             edges = [int(x) for x in line.split()]
             model = nx.DiGraph()
@@ -871,6 +927,154 @@ def router_suites(ctx, st):
             if b:
                 failing.append((case, 3, b))
     return failing
+
+
+def reassign_suite(ctx):
+    """a router object whose `.connectivity` is reassigned between calls (Passes does it on
+    every call): all three routers, G1 -> G2 and G1 -> G2 -> G1, construction with None then
+    assignment; every call checked against the graph current at that call."""
+    rng = ctx.rng
+    th = ctx.thorough
+    nbad = 0
+    reported = set()
+
+    def names_for(style, n):
+        if style == "str":
+            names = list(rng.choice([["q%d" % i for i in range(n)], ["A", "b", "C3", "d_", "E", "f", "G", "h9"][:n]]))
+        else:
+            names = list(range(n))
+        if style != "id":
+            rng.shuffle(names)
+        wires = list(names)
+        if style != "id":
+            rng.shuffle(wires)
+        return names, wires
+
+    def edges_of(G, names):
+        es = [(names[a], names[b]) for a, b in G.edges]
+        rng.shuffle(es)
+        return [e if rng.random() < 0.5 else (e[1], e[0]) for e in es]
+
+    def shuffled(G):
+        n = G.number_of_nodes()
+        perm = list(range(n))
+        rng.shuffle(perm)
+        return nx.relabel_nodes(G, {v: perm[i] for i, v in enumerate(sorted(G.nodes))})
+
+    def star(centre):
+        G = nx.Graph()
+        G.add_nodes_from(range(5))
+        G.add_edges_from((centre, v) for v in range(5) if v != centre)
+        return G
+
+    def report(case, bad):
+        nonlocal nbad
+        nbad += 1
+        key = f"{case['router']}:reassigned-connectivity"
+        if key in reported:
+            return
+        reported.add(key)
+        cur = dict(case)
+        # shrink: fewer calls first (keep the last two graphs), then fewer gates per call
+        run = SPEC["run_reassign"]
+        try:
+            if len(cur["graphs"]) > 2:
+                t = dict(cur, graphs=cur["graphs"][-2:], gates=cur["gates"][-2:])
+                if run(t):
+                    cur = t
+            budget = 80
+            for k in range(len(cur["gates"])):
+                gl = list(cur["gates"][k])
+                i = len(gl) - 1
+                while i >= 0 and budget > 0:
+                    budget -= 1
+                    trial = gl[:i] + gl[i + 1:]
+                    t = dict(cur, gates=cur["gates"][:k] + [trial] + cur["gates"][k + 1:])
+                    try:
+                        if run(t):
+                            gl, cur = trial, t
+                    except Exception:
+                        pass
+                    i -= 1
+            b2 = run(cur) or bad
+        except Exception:
+            cur, b2 = case, bad
+        code = (SPEC_SRC + "\ncase = " + repr(cur) + "\nbad = run_reassign(case)\nprint(bad)\nassert not bad, bad\n")
+        ctx.fail(key, f"{case['router']} object reused after `router.connectivity` was reassigned "
+                      f"(graphs {cur['graphs']}, wires {cur['wire_names']}): {b2[0][1]}",
+                 code, expected="every call respects the graph assigned before it (C09 on the current graph)",
+                 observed=[list(b) for b in b2][:3], broken=["C09_search_reassigned"])
+
+    def go(case, what):
+        ctx.stat("reassign_cases")
+        ctx.stat(f"reassign_{case['router']}")
+        ctx.case(("reassign", case["router"], what, repr(case["graphs"]), repr(case["gates"])))
+        try:
+            bad = SPEC["run_reassign"](case)
+        except Exception as e:
+            bad = [("reassigned-connectivity", f"harness: {type(e).__name__}: {e}")]
+        if bad:
+            report(case, bad)
+
+    styles = ["id", "perm", "str"]
+    # star router: every ordered pair of different centres (20), three label styles over the run
+    pairs = [(a, b) for a in range(5) for b in range(5) if a != b]
+    rng.shuffle(pairs)
+    for r, (c1, c2) in enumerate(pairs if th else pairs[:12]):
+        for rep in range(3 if th else 1):
+            style = styles[(r + rep) % 3]
+            names, wires = names_for(style, 5)
+            seq = [c1, c2] if (r + rep) % 3 else [c1, c2, c1]
+            none_first = (r + rep) % 4 == 3
+            widx = {w: i for i, w in enumerate(wires)}
+            gates_seq = []
+            for c in seq:
+                # a two-qubit gate between two leaves of the CURRENT star forces a SWAP through its centre
+                leaves = [widx[names[v]] for v in range(5) if v != c]
+                a, b = rng.sample(leaves, 2)
+                meas = rng.choice(["none", "trailing"])
+                gl = random_recipe(rng, 5, rng.randint(1, 10), rng.choice(["int", "int", "det"]), meas)
+                gl.insert(0, f"gates.CZ({a},{b})")
+                gates_seq.append(gl)
+            case = {"router": "StarConnectivityRouter", "opts": {}, "n": 5, "nodes": list(names), "wire_names": list(wires),
+                    "graphs": [edges_of(star(c), names) for c in seq], "gates": gates_seq, "none_first": none_first, "exact": True}
+            go(case, "star")
+    # ShortestPaths / Sabre: paths, rings, stars, trees on the same node set with other adjacency
+    def family(n):
+        T = nx.Graph()
+        T.add_node(0)
+        for v in range(1, n):
+            T.add_edge(v, rng.randrange(v))
+        return [nx.path_graph(n), nx.cycle_graph(n), nx.star_graph(n - 1), T]
+
+    for router in ("ShortestPaths", "Sabre"):
+        for r in range(36 if th else 10):
+            n = rng.choice([4, 5, 5, 6])
+            style = styles[r % 3]
+            names, wires = names_for(style, n)
+            k = 2 if r % 3 else 3
+            fam = family(n)
+            Gs = [shuffled(rng.choice(fam)) for _ in range(2)]
+            tries = 0
+            while set(map(frozenset, Gs[0].edges)) == set(map(frozenset, Gs[1].edges)) and tries < 10:
+                Gs[1] = shuffled(rng.choice(fam))
+                tries += 1
+            seqG = Gs if k == 2 else [Gs[0], Gs[1], Gs[0]]
+            widx = {w: i for i, w in enumerate(wires)}
+            gates_seq = []
+            for G in seqG:
+                # a two-qubit gate on a NON-edge of the current graph, so that SWAPs are needed
+                non = [(a, b) for a in range(n) for b in range(n) if a != b and not G.has_edge(a, b)]
+                gl = random_recipe(rng, n, rng.randint(2, 12), rng.choice(["int", "int", "det"]), rng.choice(["none", "trailing"]))
+                if non:
+                    a, b = rng.choice(non)
+                    gl.insert(0, f"gates.CNOT({widx[names[a]]},{widx[names[b]]})")
+                gates_seq.append(gl)
+            opts = sabre_opts(rng) if router == "Sabre" else {"seed": rng.randrange(1000)}
+            case = {"router": router, "opts": opts, "n": n, "nodes": list(names), "wire_names": list(wires),
+                    "graphs": [edges_of(G, names) for G in seqG], "gates": gates_seq, "none_first": r % 4 == 3, "exact": True}
+            go(case, "general")
+    ctx.ob("C09_search_reassigned", nbad == 0, "search", f"{nbad} failing cases" if nbad else "")
 
 
 def samples_suite(ctx):
@@ -1083,6 +1287,123 @@ def blocks_and_dag_suite(ctx, st):
     ctx.ob("C09_search_blocks", nbad == 0, "search", f"{nbad} cases" if nbad else "")
 
 
+def blocks_model_suite(ctx, st):
+    """tie of the Lean transliteration of blocks.py (QV/Model/Blocks.lean): exact comparison
+    of block contents (sorted qubits, gate OBJECTS by position in the queue, gate data) of the
+    real `block_decomposition(fuse=True/False)` with the model's, exhaustively for small
+    circuits and on seeded random ones; the helper functions `_find_previous_gates`,
+    `_find_successive_gates`, `_gates_on_qubit` are compared one by one on random lists."""
+    from qibo.transpiler import blocks as B
+    from qibo.transpiler._exceptions import BlockingError
+
+    rng = ctx.rng
+    th = ctx.thorough
+
+    def one(n, codes, what):
+        try:
+            c = SPEC["build_circuit"](n, list(range(n)), codes) if n >= 1 else None
+        except Exception:
+            return
+        tag = Tagger()
+        multi = any(isinstance(g, gates.M) and len(g.qubits) > 1 for g in c.queue)
+        pos = None if multi else {id(g): i for i, g in enumerate(c.queue)}
+        inp = [tag(g) for g in c.queue]
+        for fuse in (True, False):
+            try:
+                with SPEC["time_limit"](10):
+                    blocks = B.block_decomposition(c, fuse=fuse)
+                real = [(tuple(int(q) for q in b.qubits),
+                         [((pos[id(g)] if pos is not None else None),) + tag(g) for g in b.gates]) for b in blocks]
+            except BlockingError:
+                real = "ERR"
+            except Exception:
+                continue  # e.g. the known register clash of the measurement split: reported by the search suite
+            ctx.case(("blocks_model", n, fuse, tuple(codes)))
+            ctx.stat("blocks_model_cases")
+            ctx.stat("blocks_model_" + what)
+            st.lines.append(f"BLOCKS {n} {1 if fuse else 0} {len(inp)} " + " ".join(gtoks(g) for g in inp))
+            st.expect.append(("blocks_model", (real, pos is not None, n, fuse, codes), None))
+            if real != "ERR" and not SPEC_BLOCKS["blocks_ok"](c, blocks):
+                code = (SPEC_SRC + PROJ_SRC + "\nfrom qibo.transpiler.blocks import block_decomposition\n"
+                        f"c = build_circuit({n}, list(range({n})), {codes!r})\n"
+                        f"blocks = block_decomposition(c, fuse={fuse})\nassert blocks_ok(c, blocks)\n")
+                st.note("blocksprop", f"block_decomposition(fuse={fuse}) of {codes}")
+                if ("blocks:order", fuse) not in st.reported:
+                    st.reported.add(("blocks:order", fuse))
+                    ctx.fail("blocks:order", f"block_decomposition(fuse={fuse}) of {codes}: flatten(blocks) is not the input up to "
+                             "commuting gates on different qubits, or a block is not inside two distinct qubits", code,
+                             expected="per-qubit gate sequences unchanged",
+                             observed=[[list(b.qubits), [g.name for g in b.gates]] for b in blocks][:8],
+                             broken=["C09_search_blocks_exhaustive"])
+
+    # exhaustive: every circuit of X / CNOT placements (gate objects differ by identity only)
+    def kinds(n):
+        return [f"gates.X({q})" for q in range(n)] + [f"gates.CNOT({a},{b})" for a in range(n) for b in range(n) if a != b]
+
+    plan = [(2, 5), (3, 3)] + ([(3, 4), (4, 3)] if th else [])
+    for n, maxlen in plan:
+        ks = kinds(n)
+        for L in range(0, maxlen + 1):
+            for combo in itertools.product(ks, repeat=L):
+                one(n, list(combo), "exhaustive")
+    if not th:
+        ks = kinds(3)
+        for _ in range(250):
+            one(3, [rng.choice(ks) for _ in range(4)], "exhaustive_sampled")
+    # boundary: one-qubit circuit, three-qubit gate first / after a two-qubit gate, only measurements
+    for n, codes in ((1, ["gates.X(0)"]), (3, ["gates.TOFFOLI(0,1,2)"]), (3, ["gates.CNOT(0,1)", "gates.TOFFOLI(0,1,2)"]),
+                     (3, ["gates.X(0)", "gates.TOFFOLI(2,1,0)", "gates.CNOT(0,1)"]), (3, ["gates.M(0,1,2)"]),
+                     (3, ["gates.X(2)", "gates.M(0,1)"]), (4, ["gates.M(3)", "gates.X(3)", "gates.M(1)"]),
+                     (2, ["gates.X(1)"]), (5, ["gates.X(4)"]), (5, ["gates.Z(4)", "gates.X(0)", "gates.Y(4)", "gates.X(2)"])):
+        one(n, codes, "boundary")
+    # seeded random circuits: more qubits, longer, many repeated gates on the same pair, measurements
+    for r in range(1200 if th else 220):
+        n = rng.randint(2, 7)
+        meas = rng.choice(["none", "none", "trailing", "mid"])
+        mode = rng.choice(["int", "det", "det"])
+        if r % 3 == 0:
+            # few pairs, many one-qubit gates: long fusions, interleaved successors
+            prs = [tuple(rng.sample(range(n), 2)) for _ in range(rng.randint(1, 3))]
+            codes = []
+            for _ in range(rng.randint(0, 30)):
+                if rng.random() < 0.45:
+                    a, b = rng.choice(prs)
+                    if rng.random() < 0.5:
+                        a, b = b, a
+                    codes.append(rng.choice(DET_2Q).format(a, b))
+                else:
+                    codes.append(rng.choice(DET_1Q).format(rng.randrange(n)))
+        else:
+            codes = random_recipe(rng, n, rng.randint(0, 30), mode, meas)
+        one(n, codes, "random")
+    # the helper functions one by one
+    for r in range(600 if th else 150):
+        n = rng.randint(2, 6)
+        gl = []
+        for _ in range(rng.randint(0, 14)):
+            if rng.random() < 0.35:
+                a, b = rng.sample(range(n), 2)
+                gl.append(gates.CZ(a, b))
+            else:
+                gl.append(gates.X(rng.randrange(n)) if rng.random() < 0.8 else gates.M(rng.randrange(n)))
+        tg = Tagger()
+        toks = f"{len(gl)} " + " ".join(gtoks(tg(g)) for g in gl)
+        pos = {id(g): i for i, g in enumerate(gl)}
+        qs = rng.sample(range(n), 2)
+        q = rng.randrange(n)
+        ones = [g for g in gl if len(g.qubits) == 1]
+        toks1 = f"{len(ones)} " + " ".join(gtoks(tg(g)) for g in ones)
+        pos1 = {id(g): i for i, g in enumerate(ones)}
+        for cmd, line, want in (
+                ("PREV", f"PREV {toks} 2 {qs[0]} {qs[1]}", [pos[id(g)] for g in B._find_previous_gates(gl, tuple(qs))]),
+                ("SUCC", f"SUCC {toks} 2 {qs[0]} {qs[1]}", [pos[id(g)] for g in B._find_successive_gates(gl, tuple(qs))]),
+                ("ONQ", f"ONQ {toks1} {q}", [pos1[id(g)] for g in B._gates_on_qubit(ones, q)])):
+            st.lines.append(line)
+            st.expect.append(("blocks_helper", (cmd, " ".join(map(str, want)), line), None))
+            ctx.stat("blocks_helper_cases")
+            ctx.case(("blocks_helper", line))
+
+
 PROJ_SRC = r'''
 def blocks_ok(c, blocks):
     multi = any(isinstance(g, gates.M) and len(g.qubits) > 1 for g in c.queue)
@@ -1102,6 +1423,10 @@ def blocks_ok(c, blocks):
     return all(len(b.qubits) == 2 and b.qubits[0] != b.qubits[1] and all(0 <= q < n for q in b.qubits)
                and all(set(g.qubits) <= set(b.qubits) for g in b.gates) for b in blocks)
 '''
+
+
+SPEC_BLOCKS = dict(SPEC)
+exec(compile(PROJ_SRC, "<C09 blocks spec>", "exec"), SPEC_BLOCKS)
 
 
 def selftest_spec(ctx):
@@ -1136,7 +1461,9 @@ def run(ctx):
     st = Suite(ctx)
     failing = router_suites(ctx, st)
     blocks_and_dag_suite(ctx, st)
+    blocks_model_suite(ctx, st)
     process_driver(ctx, st)
+    reassign_suite(ctx)
     samples_suite(ctx)
     asserts_suite(ctx)
     # failing inputs on the real code
@@ -1159,6 +1486,10 @@ def run(ctx):
     ctx.ob("C09_corr_star", st.bad["star"] == 0, "correspondence", st.detail.get("star", ""))
     ctx.ob("C09_corr_dag", st.bad["dag"] == 0, "correspondence", st.detail.get("dag", ""))
     ctx.ob("C09_corr_blocks_order", st.bad["blocks"] == 0, "correspondence", st.detail.get("blocks", ""))
+    ctx.ob("C09_corr_blocks_model", st.bad["blocksmodel"] == 0, "correspondence", st.detail.get("blocksmodel", ""))
+    ctx.ob("C09_corr_blocks_helpers", st.bad["blockshelper"] == 0, "correspondence", st.detail.get("blockshelper", ""))
+    ctx.ob("C09_corr_blocks_model_accepted", st.bad["blockspick"] == 0, "correspondence", st.detail.get("blockspick", ""))
+    ctx.ob("C09_search_blocks_exhaustive", st.bad["blocksprop"] == 0, "search", st.detail.get("blocksprop", ""))
     ctx.sample({"suite": "action replay", "meaning": "every CircuitMap.update/undo/execute_block call of a real ShortestPaths/Sabre run is replayed by QV.Router.step; p2l, l2p, number of routed gates and the last routed gate are compared after every action, the whole routed gate list and the layout at the end; guard bits and pickCheck come from the Lean side"})
     ctx.sample({"suite": "property search", "meaning": "connectivity of every 2-qubit gate, exact routed == P.U on Gaussian-integer operators (measurements as a fixed non-commuting marker), layout bijection, wire names, trailing measurements with registers, input not mutated, router object reused"})
     ctx.trusted.append("networkx shortest paths / transitive reduction / topological generations (their outputs are validated per run: guards, order check, DAG closure)")
